@@ -327,3 +327,35 @@ c.cut('if not isinstance(r, dict):', [
     ('status-line', "implies(isinstance(r, dict), r['status'] in ('200 OK', '400 BAD REQUEST', "
      "'401 UNAUTHORIZED', '405 METHOD NOT FOUND'))"),
 ])
+
+# -------------------------------------------------------------------------- _service_task (C07)
+# The client monitor: one sweep visits every session once, calls check_ping_timeout on those not
+# closing, and between visits waits ping_timeout / (number of sessions at sweep start): the sleeps
+# requested during one sweep add up to at most ping_timeout, which is what the BOUND lemma of C07
+# relies on (a dead session is examined within one sweep period of its deadline).
+REG.contract('base_server.BaseServer.create_event').inline = True
+REG.contract('async_server.AsyncServer.create_event').inline = True
+for _cls, _mod in (('Server', 'server'), ('AsyncServer', 'async_server')):
+    c = REG.contract('%s.%s._service_task' % (_mod, _cls), props=['C07'])
+    c.param('self', Ref(_cls))
+    c.requires(SERVER_WF, 'server-wf')
+    c.requires(TABLE_WF, 'sockets-wf')
+    SVC_MOD = ['Socket.closing', 'Socket.closed', 'Queue.items', 'Queue.unf', 'Queue.taken',
+               'Queue.accepted', 'Queue.put_none', 'Queue.taken_none', 'ghost.events',
+               'ghost.hresults', 'ghost.now', 'ghost.spawned', 'ghost.slept']
+    c.modifies('self.sockets', 'self.service_task_event', *SVC_MOD)
+    c.loop(0, invariants=[('sockets-wf', TABLE_WF), ('event-created', 'self.service_task_event is not None')],
+           modifies=['self.sockets', 's', 'sleep_interval'] + SVC_MOD)
+    c.ghost_before('for s in self.sockets.copy().values():', 'slept0', 'slept')
+    c.ghost_before('for s in self.sockets.copy().values():', 'n0', 'len(self.sockets)')
+    c.ghost_before('for s in self.sockets.copy().values():', 'snap', 'self.sockets')
+    c.check_before('for s in self.sockets.copy().values():', 'sweep-sleeps-add-up-to-ping-timeout',
+                   'n0 > 0 and n0 * sleep_interval <= self.ping_timeout', props=['C07'])
+    c.loop(1, index='j', invariants=[
+        ('sockets-wf', TABLE_WF),
+        ('snapshot-wf', 'all_values(snap, lambda s: sock_wf(s))'),
+        ('event-created', 'self.service_task_event is not None'),
+        ('slept-so-far', 'slept - slept0 <= j * sleep_interval and sleep_interval >= 0'),
+        ('one-sweep-sleeps-at-most-ping-timeout', 'j <= n0 and n0 * sleep_interval <= self.ping_timeout '
+         'and slept - slept0 <= self.ping_timeout')],
+        modifies=['self.sockets'] + SVC_MOD)
